@@ -164,6 +164,7 @@ class Pending:
         import json
         self.ctx = ctx
         self.hit = []
+        self.counts = {}
         self.entries = []
         self.active = {}
         path = os.path.join(vlib.VERIF, "notes", "fixes", "%s-pending.json" % (prop or ctx.prop))
@@ -207,5 +208,9 @@ class Pending:
                 e = self.active[sig]
                 print("PENDING-FIX: property=%s signature=%s patch=%s (%s)" % (self.ctx.prop, sig, e.get("patch"), e.get("what", "")), flush=True)
             return False
-        self.ctx.violation(sig, replay, no_input=no_input)
+        # one VIOLATION line (and replay file) per signature; further instances are counted
+        self.counts[sig] = self.counts.get(sig, 0) + 1
+        self.ctx.cov.setdefault("violations_by_signature", {})[sig] = self.counts[sig]
+        if self.counts[sig] == 1:
+            self.ctx.violation(sig, replay, no_input=no_input)
         return True
